@@ -612,6 +612,11 @@ class Message:
             max_size = 512
         elif max_size > 65535:
             max_size = 65535
+        if self.pad and self.opt is not None and max_size >= self.pad:
+            # The padded message is a multiple of the block size, so only the
+            # largest such multiple that fits is usable; rendering against it
+            # keeps room for the padding when records are truncated.
+            max_size -= max_size % self.pad
         r = dns.renderer.Renderer(self.id, self.flags, max_size, origin)
         opt_reserve = self._compute_opt_reserve()
         r.reserve(opt_reserve)
